@@ -83,6 +83,8 @@ func c16(p *P) {
 	r.Rule("C16.R2", "server: power table only if requested and Pending ≥ First, taken at FirstInstance; header written before certificates", 4)
 	r.Rule("C16.R3", "client: delivery only past the sequence check, at most Limit iterations, read limit reset before each decode, decode error stops delivery", 4)
 	r.Rule("C16.R4", "poller: Store.Put only after successful validation against own table/next instance; advance only to validated outputs; illegal peer on failure", 6)
+	p.include(c04, map[string]string{"C04.R1": "C16.R5", "C04.R2": "C16.R5b", "C04.R3": "C16.R5c"}, map[string]string{"C16.R5": "the validation the poller relies on gates every certificate", "C16.R5b": "signature validation", "C16.R5c": "on rejection the reported state is exactly the valid prefix"})
+	p.include(c09, map[string]string{"C09.R1": "C16.R6"}, map[string]string{"C16.R6": "the store admits only the successor with a reproducing delta"})
 
 	// ---------------- R1/R2 server
 	if h := p.fn("C16.R1", "certexchange.Server.handleRequest"); h != nil {
